@@ -102,6 +102,7 @@ def check(run: Run, prog: Program, model: Model, tier: str) -> None:
         " The opcode and category dispatchers are evaluated on every constant of the sre universe; a negated class excludes every alphabet letter of each range and its candidate set depends on every member.")
     run.explanation += ' OPEN-SENTINEL: the comparands of the open-bound test are resolved in re._constants and must all equal MAXREPEAT (an opcode constant is a small int and a legal explicit bound). VALIDATOR-PATTERN: the validator raises the regex error iff re.search(props.pattern, value) is None; a searched pattern obtained by removing characters of the regex source is a violation, one built around the declared pattern is undecided.'
     run.explanation += ' DRAW-NONEMPTY: every random.choice operand reached from visit_str{pattern} and from each _generate_* handler run on a symbolic node is a non-empty constant, a parse-tree component, or established non-empty on the path.'
+    run.explanation += " FALLBACK-EXACT: when _generate_not_in takes a candidate from outside the alphabet, (1) a category of the class is tested by a predicate of the candidate itself, not by membership in the category's ASCII alphabet, and (2) for a RANGE member some test relates the candidate to the range's bounds (a set built from range(lo, hi + 1), a comparison with lo / hi, or a loop over that range)."
     run.rule_text = ("one obligation per opcode / category of the universe, per handler child flow, per alphabet, per draw; "
                      "non-trivial = needed abstract evaluation of a handler or constant folding")
     run.trusted += ["sre parse-tree node shapes: SUBPATTERN(group, add, del, p), BRANCH(None, [p..]), MAX/MIN_REPEAT(min, max, p), "
@@ -206,6 +207,7 @@ def check(run: Run, prog: Program, model: Model, tier: str) -> None:
     _children(run, prog, model, cls)
     _validator_pattern(run, prog, model)
     _draw_nonempty(run, prog, model)
+    _fallback_exact(run, prog, model, cls)
 
     # ---------------------------------------------------------------- ALPHABET
     _alphabets(run, prog, model, cls, cat_alpha)
@@ -394,6 +396,111 @@ def _le_on_path(lo: V, hi: V, p: Path) -> bool:
         return lo.key() == hi.key() or le(lo, hi, list(p.facts)) is True
     except Exception:
         return False
+
+
+def _loop_syms(k: str) -> Set[str]:
+    """keys of the loop / comprehension variables (`name@iterable`) that occur in the key `k`"""
+    out: Set[str] = set()
+    for m in re.finditer(r"\b\w+@", k):
+        i = m.end()
+        depth = 0
+        j = i
+        while j < len(k):
+            ch = k[j]
+            if ch == "(":
+                depth += 1
+            elif ch == ")":
+                if depth == 0:
+                    break
+                depth -= 1
+                if depth == 0:
+                    j += 1
+                    break
+            elif ch in ", " and depth == 0:
+                break
+            j += 1
+        out.add(k[m.start():j])
+    return out
+
+
+def _fallback_exact(run: Run, prog: Program, model: Model, cls: ClassInfo) -> None:
+    """FALLBACK-EXACT: inside the generator's alphabet a category (\\w, \\d) is excluded through its alphabet, which is
+    exact there (ALPHABET / category-subset rules).  A candidate taken from OUTSIDE the alphabet - the fallback for a
+    negated class that exhausts it - must be tested against what the regex engine puts in the category, not against the
+    ASCII alphabet only: `[^\\x00-\\xa9\\w]` would otherwise yield 'ª', a word character."""
+    if "_generate_not_in" not in cls.methods:
+        return
+    f = cls.methods["_generate_not_in"]
+    word = _op(prog, cls, "CATEGORY_WORD") if "_op" in globals() else None
+    cat = _op(prog, cls, "CATEGORY")
+    if word is None or cat is None:
+        run.undecided("FALLBACK-EXACT", "RegexGenerator._generate_not_in: category outside the alphabet", f.loc, "category constants not resolved")
+        return
+    ps = _run_handler(prog, model, cls, "_generate_not_in", lambda: ListV([TupleV([cat, word])]), small_alphabet="ab")
+    verdict: Optional[str] = None
+    seen = 0
+    for p in ps:
+        for e in p.events:
+            if e.kind == "partial" and e.data.get("op") == "random.choice" and e.data.get("operands"):
+                k = e.data["operands"][0].key()
+                if "builtins.chr" not in k:
+                    continue                # drawn from the alphabet
+                seen += 1
+                tests = [fk for fk, _, _ in p.facts if "builtins.chr" in fk or "letter" in fk]
+                beyond = [fk for fk in tests if not fk.startswith("in(")]
+                if not beyond:
+                    verdict = ("a character from outside the alphabet is admitted after membership tests against finite alphabets only "
+                               f"({tests[0][:60] if tests else 'no test'}): the class's category is not consulted there")
+    c = "RegexGenerator._generate_not_in: category outside the alphabet"
+    if verdict:
+        run.violated("FALLBACK-EXACT", c, f.loc, verdict,
+                     witness="RegexGenerator(Random()).generate(r'[^\\x00-\\xa9\\w]') returns 'ª', which \\w matches")
+    elif seen:
+        run.holds("FALLBACK-EXACT", c, f.loc, "a candidate from outside the alphabet is tested with a predicate of the candidate itself", nontrivial=True)
+    else:
+        run.holds("FALLBACK-EXACT", c, f.loc, "no candidate is taken from outside the alphabet", nontrivial=False)
+    # ... and against the WHOLE of each excluded range: inside the alphabet only the alphabet's share of a range matters
+    # (set difference), a candidate from outside of it has to be compared with the range's own bounds
+    lo, hi = Sym("rng_lo", "int", ("node", "lo")), Sym("rng_hi", "int", ("node", "hi"))
+    ps = _run_handler(prog, model, cls, "_generate_not_in",
+                      lambda: ListV([TupleV([_op(prog, cls, "RANGE"), TupleV([lo, hi])])]), small_alphabet="ab")
+    c = "RegexGenerator._generate_not_in: range outside the alphabet"
+    verdict = None
+    seen = 0
+    for p in ps:
+        for e in p.events:
+            if e.kind == "partial" and e.data.get("op") == "random.choice" and e.data.get("operands"):
+                k = e.data["operands"][0].key()
+                if "builtins.chr" not in k:
+                    continue
+                seen += 1
+                toks = {k} | _loop_syms(k)
+                tests = [fk for fk, _, _ in p.facts[:e.nfacts] if any(t in fk for t in toks)]
+                if "rng_lo" in k or "rng_hi" in k:
+                    continue            # computed from the bounds
+                # how often a loop over range(lo, hi + 1) ran on the way is a dependence on the bounds too (bounded unrolling
+                # stands for the whole expansion)
+                loops = []
+                for e2 in p.events:
+                    if e2 is e:
+                        break
+                    if e2.kind in ("loop", "comp_iter") and isinstance(e2.data.get("iterable"), V):
+                        loops.append(e2.data["iterable"].key())
+                if any(("rng_lo" in lk or "rng_hi" in lk) and "range(" in lk for lk in loops):
+                    continue
+                if not any("rng_lo" in fk or "rng_hi" in fk for fk in tests):
+                    verdict = ("a character from outside the alphabet is admitted without any test that relates it to the range's bounds "
+                               f"({tests[0][:70] if tests else 'no test'}): only the alphabet's share of the range is excluded there")
+    if any(p.outcome == "limit" for p in ps):
+        run.undecided("FALLBACK-EXACT", c, f.loc, "path limit")
+    elif verdict:
+        run.violated("FALLBACK-EXACT", c, f.loc, verdict,
+                     witness="RegexGenerator(Random()).generate(r'[^\\x00-\\x7f]') returns '\\x00', which the class excludes")
+    elif seen:
+        run.holds("FALLBACK-EXACT", c, f.loc, "a candidate from outside the alphabet is tested against a set / bounds built from the whole range", nontrivial=True)
+    else:
+        run.holds("FALLBACK-EXACT", c, f.loc, "no candidate is taken from outside the alphabet", nontrivial=False)
+
 
 UNKNOWN = "__NO_SUCH_CODE__"
 
@@ -759,7 +866,7 @@ def _alphabets(run: Run, prog: Program, model: Model, cls: ClassInfo, cat_alpha:
 X = "d42/generation/_regex_generator.py"
 MUTANTS = [
     {"name": "fallback for an exhausted negated class removed (fix 30d0521 reverted)", "rule": "DRAW-NONEMPTY",
-     "edits": [(X, "        if len(letters) == 0:\n            # the class excludes the whole alphabet: fall back to the first character it admits\n            letters = self._first_letter_not_in(exclude_letters)\n", "")]},
+     "edits": [(X, "        if len(letters) == 0:\n            # the class excludes the whole alphabet: fall back to the first character it admits\n            categories = [val for opcode, val in value if opcode == CATEGORY]\n            letters = self._first_letter_not_in(exclude_letters, categories)\n", "")]},
     {"name": "validator rewrites a trailing `$` of the pattern into \\Z by string surgery (seeded C09-J)", "rule": "VALIDATOR-PATTERN",
      "edits": [("d42/validation/_validator.py", "            match_object = re.search(schema.props.pattern, value)", "            pattern = schema.props.pattern\n            if pattern.endswith(\"$\"):\n                pattern = pattern[:-1] + r\"\\Z\"\n            match_object = re.search(pattern, value)")]},
     {"name": "neutral: validator searches through a compiled pattern object", "expect": "SILENT",
@@ -810,4 +917,22 @@ MUTANTS += [
     {"name": "negated-class complement memoised by id(node)", "rule": "NO-HIDDEN-STATE",
      "edits": [(X, "        letters = \"\".join(set(self._alphabet[\"letters\"]) - set(exclude_letters))\n        if len(letters) == 0:",
                 "        key = id(value)\n        if key not in self._alphabet:\n            self._alphabet[key] = \"\".join(set(self._alphabet[\"letters\"]) - set(exclude_letters))\n        letters = self._alphabet[key]\n        if len(letters) == 0:")]},
+]
+
+# round 7: the seeded changes that were missed on first contact, replayed against the current tree
+MUTANTS += [
+    {"name": 'seeded C09-N', "rule": 'FALLBACK-EXACT',
+     "edits": [('d42/generation/_regex_generator.py', '        exclude_letters = ""\n        for opcode, val in value:\n            if opcode == RANGE:\n                min_ord, max_ord = val\n                exclude_letters += "".join(self._generate_literal(x) for x in range(min_ord,\n                                                                                    max_ord + 1))\n            elif opcode == CATEGORY:\n                exclude_letters += self._get_category_alphabet(val)\n            else:\n', '        exclude_letters = ""\n        for opcode, val in value:\n            if opcode == RANGE:\n                # only the letters that can be drawn matter: do not materialise the whole range\n                # ([^\\x00-\\U0010ffff] would build a string of 1.1M characters on every call)\n                min_ord, max_ord = val\n                exclude_letters += "".join(x for x in self._alphabet["letters"]\n                                           if min_ord <= ord(x) <= max_ord)\n            elif opcode == CATEGORY:\n                exclude_letters += self._get_category_alphabet(val)\n            else:\n')]},
+]
+
+MUTANTS += [
+    {"name": "the fallback for an exhausted negated class ignores categories outside the alphabet (fix d2d2014 reverted)", "rule": "FALLBACK-EXACT",
+     "edits": [(X, "            if any(self._is_in_category(category, letter) for category in categories):\n                continue\n", "")]},
+    {"name": "neutral: the fallback tests the category before the excluded letters", "expect": "SILENT",
+     "edits": [(X, "            if letter in excluded:\n                continue\n            if any(self._is_in_category(category, letter) for category in categories):\n                continue\n",
+                "            if any(self._is_in_category(category, letter) for category in categories):\n                continue\n            if letter in excluded:\n                continue\n")]},
+    {"name": "neutral: a negated range is tested by its bounds instead of being expanded", "expect": "SILENT",
+     "edits": [(X, "            if letter in excluded:\n                continue\n", "            if letter in excluded or any(lo <= ord(letter) <= hi for lo, hi in ranges):\n                continue\n"),
+               (X, "    def _first_letter_not_in(self, exclude_letters: str, categories: List[Any]) -> str:\n", "    def _first_letter_not_in(self, exclude_letters: str, categories: List[Any],\n                             ranges: Any = ()) -> str:\n"),
+               (X, "            letters = self._first_letter_not_in(exclude_letters, categories)\n", "            ranges = [val for opcode, val in value if opcode == RANGE]\n            letters = self._first_letter_not_in(exclude_letters, categories, ranges)\n")]},
 ]
